@@ -347,12 +347,15 @@ Prods(h) ==
             [] ty = "M" -> { P(0, "ctor_M", <<T("M"), T("("), EX("Int"), T(","), T("key"), T(":"), EX("String"), T(","), T("value"), T(":"), EX("Float"), T(")")>>),
                              P(1, "ctor_M_swapped", <<T("M"), T("("), EX("Int"), T(","), T("value"), T(":"), EX("Float"), T(","), T("key"), T(":"), EX("String"), T(")")>>) }
             \* the library module pal (imported, used qualified): pub type Color { Red Green }, pub type Shade { Shade(c: Color, n: Int) },
-            \* pub fn mix(a: Color, b: Color) -> Color, pub fn keep(x: a, y: b) -> a
+            \* pub fn mix(a: Color, b: Color) -> Color, pub fn keep(x: a, y: b) -> a.  pal itself imports two modules (hue, tone) that
+            \* both import a third (base): the imports below a callee's module form a diamond, not a cycle - types flow as usual
             [] ty = "Color" -> { P(0, "pal_red", <<T("pal"), T("."), T("Red")>>), P(1, "pal_green", <<T("pal"), T("."), T("Green")>>),
                                  P(1, "pal_mix", <<T("pal"), T("."), T("mix"), T("("), EX("Color"), T(","), EX("Color"), T(")")>>),
                                  P(1, "shade_c", <<GRS("Shade"), T("."), T("c")>>) }
             [] ty = "Shade" -> { P(0, "pal_shade", <<T("pal"), T("."), T("Shade"), T("("), EX("Color"), T(","), EX("Int"), T(")")>>),
-                                 P(1, "pal_shade_labels", <<T("pal"), T("."), T("Shade"), T("("), T("n"), T(":"), EX("Int"), T(","), T("c"), T(":"), EX("Color"), T(")")>>) }
+                                 P(1, "pal_shade_labels", <<T("pal"), T("."), T("Shade"), T("("), T("n"), T(":"), EX("Int"), T(","), T("c"), T(":"), EX("Color"), T(")")>>),
+                                 \* the module header is `import pal.{Shade}`: the CONSTRUCTOR Shade (spelled like its type) is also in scope unqualified
+                                 P(1, "unq_shade", <<T("Shade"), T("("), EX("Color"), T(","), EX("Int"), T(")")>>) }
             [] c = "Fx" -> { P(0, "fx", <<T("Fx"), T("("), EX(F1("Int", x)), T(")")>>),
                              P(1, "fx_label", <<T("Fx"), T("("), T("run"), T(":"), EX(F1("Int", x)), T(")")>>) }
             [] c = "List" -> { P(0, "list_one", <<T("["), EX(x), T("]")>>),
@@ -388,7 +391,8 @@ Prods(h) ==
             [] ty = "Color" -> { P(pc, "p_red", <<T("pal"), T("."), T("Red")>>), P(pc, "p_green", <<T("pal"), T("."), T("Green")>>) }
             [] ty = "Shade" -> { P(pc, "p_shade", <<T("pal"), T("."), T("Shade"), T("("), PA("Color"), T(","), PA("Int"), T(")")>>),
                                  P(pc, "p_shade_labels", <<T("pal"), T("."), T("Shade"), T("("), T("n"), T(":"), PA("Int"), T(","), T("c"), T(":"), PA("Color"), T(")")>>),
-                                 P(pc, "p_shade_spread", <<T("pal"), T("."), T("Shade"), T("("), PA("Color"), T(","), T(".."), T(")")>>) }
+                                 P(pc, "p_shade_spread", <<T("pal"), T("."), T("Shade"), T("("), PA("Color"), T(","), T(".."), T(")")>>),
+                                 P(pc, "p_unq_shade", <<T("Shade"), T("("), PA("Color"), T(","), PA("Int"), T(")")>>) }
             [] c = "Fx" -> { P(pc, "p_fx", <<T("Fx"), T("("), PA(F1("Int", x)), T(")")>>) }
             [] c = "Box" -> { P(pc, "p_box", <<T("Box"), T("("), PA(x), T(")")>>), P(pc, "p_box_label", <<T("Box"), T("("), T("inner"), T(":"), PA(x), T(")")>>) }
             [] ty = "T" -> { P(pc, "p_T", <<T("T"), T("("), T("a"), T(":"), PA("Int"), T(","), T("b"), T(":"), PA("String"), T(")")>>),
